@@ -214,6 +214,9 @@ impl Drop for Target {
             unsafe { libc::waitpid(th.tid, &mut st, libc::__WALL | libc::WNOHANG) };
         }
         for _ in 0..200 {
+            if !std::path::Path::new(&format!("/proc/{}", self.pid)).exists() {
+                return; // already reaped (a scenario killed and reaped it)
+            }
             match self.child.try_wait() {
                 Ok(Some(_)) => return,
                 _ => {
